@@ -219,7 +219,7 @@ theorem applyPadding_order1_fwd (lhs : Nat → K) (nL nR off : Nat) (h : nR < nL
   have hmin : min nL nR = nR := by omega
   have hmax : max nL nR = nL := by omega
   simp only [applyPadding, if_neg (Nat.not_le.2 h), hmin, hmax, PadSlices.outer, PadSlices.inner,
-    SliceSpec.widenStop, SliceSpec.widenStart, Option.map]
+    PadSlices.nPadL, PadSlices.nPadR, SliceSpec.widenStop, SliceSpec.widenStart, Option.map]
   rw [pySlice_upto _ _ (by omega) (by omega), pySlice_from _ _ (by omega) (by omega),
     pySlice_fwd _ _ _ (by omega) (by omega) (by omega),
     pySlice_fwd _ _ _ (by omega) (by omega) (by omega),
@@ -244,7 +244,7 @@ theorem applyPadding_order1_adj (lhs : Nat → K) (nL nR off : Nat) (h : nR < nL
   have hmin : min nL nR = nR := by omega
   have hmax : max nL nR = nL := by omega
   simp only [applyPadding, if_neg (Nat.not_le.2 h), hmin, hmax, PadSlices.outer, PadSlices.inner,
-    SliceSpec.widenStop, SliceSpec.widenStart, Option.map]
+    PadSlices.nPadL, PadSlices.nPadR, SliceSpec.widenStop, SliceSpec.widenStart, Option.map]
   rw [pySlice_upto _ _ (by omega) (by omega), pySlice_from _ _ (by omega) (by omega),
     pySlice_fwd _ _ _ (by omega) (by omega) (by omega),
     pySlice_fwd _ _ _ (by omega) (by omega) (by omega),
